@@ -25,7 +25,10 @@ def sh(cmd, cwd=wt, timeout=1800, **kw):
 
 meta = dict(seed_id=sid, property=prop, source_dir=mdir, at=time.strftime('%Y-%m-%dT%H:%M:%SZ', time.gmtime()), steps={})
 subprocess.run(['git', '-C', '/repo', 'worktree', 'remove', '--force', wt], stdout=subprocess.DEVNULL, stderr=subprocess.DEVNULL)
-rc, out = sh(['git', '-C', '/repo', 'worktree', 'add', '--detach', wt, 'HEAD'], cwd='/')
+BASE = os.environ.get('ASV_BASE', 'HEAD')  # the demonstration may be run on the commit the agent worked on (before a later fix:)
+rc, out = sh(['git', '-C', '/repo', 'worktree', 'add', '--detach', wt, BASE], cwd='/')
+if BASE != 'HEAD':
+    meta['demo_base'] = BASE
 assert rc == 0, out
 try:
     patch = os.path.join(mdir, 'patch.diff')
@@ -98,6 +101,13 @@ try:
                 os.remove(p)
     if os.path.exists(support):
         sh(['git', 'apply', '-R', '--whitespace=nowarn', support])
+    if BASE != 'HEAD':
+        # the checks always look at today's tree + the change
+        sh('git checkout -q -- . && git clean -fdq -e target')
+        head = subprocess.run(['git', '-C', '/repo', 'rev-parse', 'HEAD'], stdout=subprocess.PIPE, text=True).stdout.strip()
+        sh(['git', 'checkout', '-q', '--detach', head])
+        rc, out = sh(['git', 'apply', '--whitespace=nowarn', patch])
+        meta['steps']['applies_on_head'] = rc == 0
     e2 = dict(os.environ, VERIF_REPO=wt, VERIF_NO_EVIDENCE='1', VERIF_OUT='/tmp/asv-cs-out-%s' % sid, VERIF_CACHE='/tmp/asv-cs-cache-%s' % sid)
     p = subprocess.run([os.path.join(VERIF, 'check'), '--all'], env=e2, stdout=subprocess.PIPE, stderr=subprocess.STDOUT, text=True, timeout=1800)
     fired = {}
